@@ -175,6 +175,12 @@ impl Ctx {
         self.coverage.insert(k.to_string(), v);
     }
 
+    /// A state cap was hit: what was explored below it stands, the run is not exhaustive.
+    pub fn cap_hit(&mut self, label: &str, cap: usize) {
+        self.exhaustive = false;
+        self.note(&format!("{}: state cap of {} states hit - the real object has far more reachable states than the reference model; the search is NOT closed, the verdict covers the {} shallowest states only", label, cap, cap));
+    }
+
     /// Vacuity guard evaluated on the reference/model side only.
     pub fn expect(&mut self, cond: bool, what: &str) {
         if !cond {
